@@ -792,6 +792,9 @@ def templates(op, spox):
     t("inline_1", (("F23",),), ("F23", "F6"), inline1)
     t("inline_2", (("F6",), ("F6",)), ("F6",), inline2)
     t("inline_mut", (("F6",),), ("F6",), inline_mut)
+    # operators WITHOUT inputs that the backend evaluates all the same (a fault there is handled like anywhere else)
+    t("seq_empty", (), ("SEQX",), lambda a, p: [op.sequence_empty(dtype=np.float32)])
+    t("inline_no_inputs", (), ("F6",), lambda a, p: list(spox.inline(inline_model_6(op, spox))().values()))
     t("inline_5_old_mixed", (("F23",),), ("F23OLD",), lambda a, p: list(spox.inline(inline_model_5())(a[0]).values()))
     return T
 
@@ -836,6 +839,14 @@ def inline_model_4(op, spox):
         a = spox.argument(Tensor(np.float32, (6,)))
         _INLINE_CACHE["m4"] = spox.build({"a": a}, {"r": op.mul(a, op.const(np.array(2.0, np.float32)))})
     return _INLINE_CACHE["m4"]
+
+
+def inline_model_6(op, spox):
+    """a model without inputs (its result is computed from Constant nodes only)"""
+    if "m6" not in _INLINE_CACHE:
+        c = op.constant(value=np.arange(6, dtype=np.float32))
+        _INLINE_CACHE["m6"] = spox.build({}, {"r": op.mul(c, op.constant(value=np.array(0.5, np.float32)))})
+    return _INLINE_CACHE["m6"]
 
 
 def inline_model_5():
